@@ -116,6 +116,11 @@ func (x *Exec) assume(st *State, phi string) {
 	if phi == "true" || phi == "" {
 		return
 	}
+	for _, q := range st.pending {
+		if q == phi {
+			return
+		}
+	}
 	st.pending = append(st.pending, phi)
 }
 
@@ -487,7 +492,7 @@ func (x *Exec) wf(st *State, t types.Type, term string, global bool) {
 			return
 		}
 	case "Slice":
-		phi = fmt.Sprintf("(and (>= (sl_off %s) 0) (<= 0 (sl_len %s)) (<= (sl_len %s) (sl_cap %s)) (>= (sl_arr %s) 0))", term, term, term, term, term)
+		phi = fmt.Sprintf("(and (>= (sl_off %s) 0) (<= 0 (sl_len %s)) (<= (sl_len %s) (sl_cap %s)) (>= (sl_arr %s) 0) (<= (sl_cap %s) 281474976710656))", term, term, term, term, term, term)
 	case "Ptr":
 		phi = fmt.Sprintf("(oldptr %s)", term)
 	default:
